@@ -285,7 +285,9 @@ def runStr (p : Pos) (ctor : String) (r : Run) : String :=
     | .server, "NewHttpServer" => s!"http,{sch},{boolStr r.secure}"
     | .server, "NewIoServer" => s!"stdio,{sch},{tlsWord r.tls}"
     | .server, "NewPacketServer" => s!"packet,kcp.Listener,{net}"
-    | .server, "NewDnsServer" => s!"dns,dns.ServerDnsListener,{sch},{boolStr r.secure}"
+    -- last field: what really serves DNS (the harness probes the bound socket from outside); dns.Server.Net gets "-tls"
+    -- appended when secure
+    | .server, "NewDnsServer" => s!"dns,dns.ServerDnsListener,{sch},{boolStr r.secure},{net}{if r.tls then "-tls" else ""}"
     | .upstream, "Http" => s!"ws,{tlsWord r.tls}"
     | .upstream, "Socket" => s!"sock,{net},{tlsWord r.tls}"
     | .upstream, "InputOutput" => s!"stdio,{tlsWord r.tls}"
